@@ -38,7 +38,10 @@ theorem c01_source_facts :
     -- PushTo hands out COPIES of the cached FLV header tags (it assigns to locals, never through the cache's pointers)
     countOf "set cache.metaData.Timestamp" IpcHub.Gen.progFlvPushTo = 0 ∧
     countOf "set cache.videoSequenceHeader.Timestamp" IpcHub.Gen.progFlvPushTo = 0 ∧
-    countOf "set cache.audioSequenceHeader.Timestamp" IpcHub.Gen.progFlvPushTo = 0 := by
+    countOf "set cache.audioSequenceHeader.Timestamp" IpcHub.Gen.progFlvPushTo = 0 ∧
+    -- "unmodified": the delivery side never writes through the shared packet / tag object
+    IpcHub.Gen.mutPacketWrite = [] ∧ IpcHub.Gen.mutTcpConsume = [] ∧ IpcHub.Gen.mutUdpConsume = [] ∧
+    IpcHub.Gen.mutWspConsume = [] ∧ IpcHub.Gen.mutFlvWriteTag = [] ∧ IpcHub.Gen.mutFlvWriteTagFn = [] := by
   decide
 
 /-- Shape: for every consumer, what it has received plus what is still queued for it is exactly
